@@ -45,7 +45,7 @@ def check_entries(prog: Program, res: Result, kinds, rule_out="C02-out", rule_ow
         # obligations recorded by the interpreter
         seen = set()
         for ob in I.obligations:
-            rule = {"R-out": rule_out, "R-reg": f"{prefix}-reg", "R-pad": f"{prefix}-pad", "R-corner": f"{prefix}-corner", "C03-lines": "C03-lines"}.get(ob.rule, ob.rule)
+            rule = {"R-out": rule_out, "R-reg": f"{prefix}-reg", "R-centre": f"{prefix}-reg", "R-pad": f"{prefix}-pad", "R-corner": f"{prefix}-corner", "C03-lines": "C03-lines"}.get(ob.rule, ob.rule)
             key = (rule, ob.construct)
             if key in seen:
                 continue
